@@ -19,7 +19,12 @@ type Simplifier interface {
 func (p Polygon) Simplify(tolerance float64) Geom {
 	var out Polygon = make([]Path, len(p))
 	for i, r := range p {
-		out[i] = simplifyCurve(r, p, tolerance)
+		// The ring is checked against its own output and its own remaining
+		// segments inside simplifyCurve, and against the other rings here.
+		others := make([]Path, 0, len(p)-1)
+		others = append(others, p[:i]...)
+		others = append(others, p[i+1:]...)
+		out[i] = simplifyCurve(r, others, tolerance)
 	}
 	return out
 }
@@ -81,44 +86,43 @@ func simplifyCurve(curve Path,
 		return append(out, curve...)
 	}
 
+	// notSimple returns whether replacing the vertices between curve[i] and
+	// curve[j] by a single segment would cause a self intersection.
+	notSimple := func(i, j int) bool {
+		return segMakesNotSimple(curve[i], curve[j], []Path{out}) ||
+			segMakesNotSimple(curve[i], curve[j], []Path{curve[j:]}) ||
+			segMakesNotSimple(curve[i], curve[j], otherCurves)
+	}
+
 	i := 0
-	for {
-		out = append(out, curve[i])
-		breakTime := false
-		for j := i + 2; j < len(curve); j++ {
-			breakTime2 := false
-			for k := i + 1; k < j; k++ {
-				d := distPointToSegment(curve[k], curve[i], curve[j])
-				if d > tol {
-					// we have found a candidate point to keep
-					for {
-						// Make sure this simplification doesn't cause any self
-						// intersections.
-						if j > i+2 &&
-							(segMakesNotSimple(curve[i], curve[j-1], []Path{out[0:i]}) ||
-								segMakesNotSimple(curve[i], curve[j-1], []Path{curve[j:]}) ||
-								segMakesNotSimple(curve[i], curve[j-1], otherCurves)) {
-							j--
-						} else {
-							i = j - 1
-							out = append(out, curve[i])
-							breakTime2 = true
-							break
-						}
-					}
+	out = append(out, curve[i])
+	for j := i + 2; j < len(curve); j++ {
+		for k := i + 1; k < j; k++ {
+			d := distPointToSegment(curve[k], curve[i], curve[j])
+			if d > tol {
+				// we have found a candidate point to keep.
+				// Make sure this simplification doesn't cause any self
+				// intersections.
+				for j > i+2 && notSimple(i, j-1) {
+					j--
 				}
-				if breakTime2 {
-					break
-				}
-			}
-			if j == len(curve)-1 {
-				// Add last point regardless of distance.
-				out = append(out, curve[j])
-				breakTime = true
+				i = j - 1
+				out = append(out, curve[i])
+				break
 			}
 		}
-		if breakTime {
-			break
+		if j == len(curve)-1 {
+			// Add last point regardless of distance, but keep as many of the
+			// points before it as are needed to avoid a self intersection.
+			for j > i+1 && notSimple(i, j) {
+				j--
+			}
+			out = append(out, curve[j])
+			i = j
+			j = i + 1 // the scan continues with the segment from i to i+2
+			if i == len(curve)-2 {
+				out = append(out, curve[i+1])
+			}
 		}
 	}
 	return out
@@ -129,12 +133,16 @@ func segMakesNotSimple(segStart, segEnd Point, paths []Path) bool {
 	for _, p := range paths {
 		for i := 0; i < len(p)-1; i++ {
 			seg2 := segment{p[i], p[i+1]}
+			numIntersections, _, _ := findIntersection(seg1, seg2)
 			if seg1.start == seg2.start || seg1.end == seg2.end ||
 				seg1.start == seg2.end || seg1.end == seg2.start {
-				// colocated endpoints are not a problem here
-				return false
+				// Segments that share an end point are only a problem
+				// if they also overlap along their length.
+				if numIntersections > 1 {
+					return true
+				}
+				continue
 			}
-			numIntersections, _, _ := findIntersection(seg1, seg2)
 			if numIntersections > 0 {
 				return true
 			}
